@@ -426,18 +426,22 @@ theorem FS.WF.terminal {fs : FS} (h : fs.WF) (t : Rat) (status : Str) : (fs.term
 
 theorem FS.WF.request {fs : FS} (h : fs.WF) (t : Rat) (timedOut : Bool) : (fs.request t timedOut).WF := by
   have h1 := (h.pub (.pubReq fs.next (fs.hold.getLastD 0)) rfl).closeKeep t
-  have h2 : ({ (fs.pub (.pubReq fs.next (fs.hold.getLastD 0))).closeKeep t with next := fs.next + 1 } : FS).WF :=
+  have h2 : ({ (fs.pub (.pubReq fs.next (fs.hold.getLastD 0))).closeKeep t with
+      next := fs.next + 1, toks := FS.requested fs.toks } : FS).WF :=
     h1.congr rfl rfl rfl rfl rfl rfl
   unfold FS.request
   cases timedOut
   · exact h2.deliverNow fs.next
   · exact h2.congr rfl rfl rfl rfl rfl rfl
 
-theorem allTails_pushLevel (fs : FS) : fs.pushLevel.allTails = fs.allTails := by
+theorem allTails_pushLevel (fs : FS) (mc : Nat) : (fs.pushLevel mc).allTails = fs.allTails := by
   simp [FS.pushLevel, FS.allTails, List.flatMap_cons]
 
-theorem FS.WF.pushLevel {fs : FS} (h : fs.WF) : fs.pushLevel.WF :=
-  h.congr rfl rfl rfl rfl rfl (allTails_pushLevel fs)
+theorem FS.WF.pushLevel {fs : FS} (h : fs.WF) (mc : Nat) : (fs.pushLevel mc).WF :=
+  h.congr rfl rfl rfl rfl rfl (allTails_pushLevel fs mc)
+
+theorem FS.WF.visit {fs : FS} (h : fs.WF) (k : Tok) : (fs.visit k).WF := h.congr rfl rfl rfl rfl rfl rfl
+theorem FS.WF.failTok {fs : FS} (h : fs.WF) : fs.failTok.WF := h.congr rfl rfl rfl rfl rfl rfl
 
 theorem pubBranches_isPub (base lo : Nat) (path : List Nat) (i : Nat) (names : List Str) :
     ∀ f ∈ FS.pubBranches base lo path i names, f.isPub = true := by
@@ -478,14 +482,15 @@ theorem FS.WF.launch {fs : FS} (h : fs.WF) (t : Rat) (names : List Str) : (fs.la
 
 theorem FS.WF.startBranch {fs : FS} (h : fs.WF) : fs.startBranch.WF := by
   unfold FS.startBranch
-  exact (h.congr (fs' := { fs with rel := false, path := fs.lvl.path ++ [fs.lvl.fins.length], mark := fs.steps.length })
+  exact (h.congr (fs' := { fs with
+      rel := false, path := fs.lvl.path ++ [fs.lvl.fins.length], mark := fs.steps.length, toks := [] })
     rfl rfl rfl rfl rfl rfl).deliverHold _
 
 theorem FS.WF.endBranch {fs : FS} (h : fs.WF) (t : Rat) (failed : Bool) : (fs.endBranch t failed).WF := by
   have hall : (fs.endBranch t failed).allTails = fs.lvl.fins ++
       [({ slot := fs.lvl.fins.length, t := t, frames := fs.open_,
           hold := if fs.rel then [] else fs.hold, now := if fs.rel then fs.hold ++ fs.now else fs.now,
-          owed := fs.owed, failed := failed, seg := fs.steps.take (fs.steps.length - fs.mark) } : Tail)] ++
+          owed := fs.owed, failed := failed, seg := fs.steps.take (fs.steps.length - fs.mark), toks := fs.toks } : Tail)] ++
       fs.outer.flatMap (·.fins) := by
     simp [FS.endBranch, FS.allTails]
   constructor
@@ -631,6 +636,7 @@ theorem FS.WF.joinOn {fs : FS} (h : fs.WF) (c : Tail) (tie : Bool) : (fs.joinOn 
               owed := fs.owed ++ (fs.lvl.fins.filter (fun f => !(f.slot == c.slot))).flatMap (·.hold) ++
                 (fs.lvl.fins.filter (fun f => f.slot == c.slot)).flatMap (·.owed),
               rel := true, path := fs.lvl.path, mark := fs.lvl.mark, tieJoin := fs.tieJoin || tie,
+              toks := FS.withBranches fs.lvl.toks fs.lvl.mc (fs.lvl.fins.map (·.toks.reverse)),
               lvl := { fs.lvl with fins := [] } } : FS).WF := by
     constructor
     · intro s hs
